@@ -250,8 +250,10 @@ def mon_C05(st):
                     out.append(("pulled-too-far", j, f"pool {pi} {r.name}: pulled={pulled} created={created} skipped={skipped}"))
                 if (hookfree and o["q"] == 0 and not st.in_callback(pi, j) and not po["z"] and not po["f"]
                         and first_ok_set_size(ps) is None and r.spec["coro"] and created + skipped < n):
-                    held = sum(1 for tid in r.tids if ps.tasks[tid].first_seen <= j and not finished_before(ps.tasks[tid], j)
-                               and not any(x[0] <= j for x in ps.tasks[tid].ec) and not any(x[0] <= j for x in ps.tasks[tid].cc))
+                    # at idle every created task has taken its first step: one without a start event was cancelled
+                    # before it began and is over
+                    held = sum(1 for tid in r.tids if ps.tasks[tid].S is not None and ps.tasks[tid].S <= j
+                               and not finished_before(ps.tasks[tid], j))
                     if held != r.nc:
                         out.append(("not-work-conserving", j,
                                     f"pool {pi} {r.name}: {held} tasks running, num_concurrent={r.nc}, {n - created - skipped} elements left"))
@@ -619,7 +621,7 @@ def mon_C11(st):
         hi = -1
         for j in sorted(by_step):
             new = sorted(by_step[j])
-            if new[0] <= hi:
+            if new[0] <= hi and not ps.has_hooks:
                 out.append(("id-reused-or-out-of-order", j, f"pool {pi}: new id {new[0]} after {hi}"))
             if not ps.has_hooks and new != list(range(hi + 1, hi + 1 + len(new))):
                 out.append(("ids-not-dense", j, f"pool {pi}: new ids {new} after {hi}"))
@@ -811,3 +813,19 @@ def run_monitor(prop, lines, obs_lines, extras=None, loopexc=None):
     if prop == "C12":
         return mon_C12(st, loopexc)
     return MONITORS[prop](st)
+
+
+# ------------------------------------------------------------------------------- known-finding triggers
+def trigger_holds(trigger, st):
+    """does the history leave the envelope of the `_partial` theorem through this finding's trigger? (DESIGN §6)"""
+    if trigger == "any":
+        return True
+    if trigger == "set_size":
+        return any(ok for ps in st.pools for (_, _, ok) in ps.set_size_steps)
+    if trigger == "unlock_while_closing":
+        for ps in st.pools:
+            for (j, k) in ps.lock_ops:
+                if k == "unlock" and any(g <= j for g in ps.gac_steps):
+                    return True
+        return False
+    return False
